@@ -1465,8 +1465,16 @@ class FunctionNode(AstNode):
 
             template_parameters = ast
             ast = ast.decl
+            if not self.template_parameters:
+                raise RuntimeError(
+                    "Template must have at least one parameter: {}".format(decl))
             for args in self.template_arguments:
                 args.parse_instantiation(namespace=self)
+                if len(args.asts) != len(self.template_parameters):
+                    raise RuntimeError(
+                        "Instantiation '{}' must have {} template arguments: {}"
+                        .format(args.instantiation,
+                                len(self.template_parameters), decl))
 
             # XXX - convert to cxx_template format  { T=['int', 'double'] }
             # XXX - only deals with single template argument  [0]?
@@ -1476,7 +1484,9 @@ class FunctionNode(AstNode):
                 lst.append(arg.asts[0].typemap.name)
             self.cxx_template[argname] = lst
         elif isinstance(ast, declast.Declaration):
-            pass
+            if self.template_arguments:
+                raise RuntimeError(
+                    "cxx_template requires a function template: {}".format(decl))
         else:
             raise RuntimeError("Expected a function declaration")
         if ast.params is None:
